@@ -4,7 +4,7 @@
    their content lies in the correspondence check (build twice, build in permuted order, 8 threads
    on one shared automaton).  Proved here: the character-wise CodeMapper -- the component whose
    result could depend on the order of the input -- does not. *)
-From DV Require Import Model.Base Model.Utf8 Model.CwBuild Proofs.PermProps.
+From DV Require Import Model.Base Model.Nfa Model.BwBuild Model.Utf8 Model.CwBuild Model.Ser Model.Spec Proofs.PermProps Proofs.TrieInv Theory.SpecPerm Proofs.BuildPermBytes.
 From Coq Require Import Sorted Permutation.
 Local Open Scope N_scope.
 
@@ -37,3 +37,64 @@ Example c14_observed :
   mapper_of_chars (concat [[97; 98]; [98; 99]; [97]]) = mapper_of_chars (concat [[97]; [98; 99]; [97; 98]])
   /\ mp_alpha (mapper_of_chars (concat [[97; 98]; [98; 99]; [97]])) = 3.
 Proof. vm_compute. split; reflexivity. Qed.
+
+(* ---- BUILD ORDER INDEPENDENCE, in full ---------------------------------------------------------------
+   Building from ANY permutation of the pattern/value pairs gives THE SAME automaton -- the same
+   state array, the same output table (and, character-wise, the same code mapper), the same
+   counters; Leibniz equality of the model's automaton values, hence identical serialised bytes
+   under every value serialiser -- for standard and leftmost-longest semantics, any num_free_blocks,
+   both variants, every collection both orders of which are built.  (Leftmost-first depends on the
+   registration order by definition.)  Proof chain: the tries of the two orders satisfy the trie
+   invariant for the same set of strings, so "the state of string p" defines a renaming phi of the
+   state ids (Proofs/IsoTrie.v: a bijection of N; edge lists are sorted by label, so corresponding
+   states have corresponding edge lists; outputs agree); finish_nfa (fail links by breadth-first
+   search, both kinds; output chains) maps isomorphic NFAs to isomorphic NFAs with equal output
+   tables, step by step and with equal outcomes (Proofs/Iso.v); the depth-first layout runs in lock
+   step on isomorphic NFAs -- same bases, same slots, same helper state -- and set_fails writes the
+   same values, so the finished arrays agree slot by slot (Proofs/IsoBw.v, IsoCw.v); the code
+   mapper is order independent (above). *)
+Theorem bw_build_is_order_independent :
+  forall (V : Type) k nfb (pvs pvs' : list (list N * V)) A A',
+    Permutation pvs pvs' -> k <> LeftmostFirst ->
+    (forall p v, In (p, v) pvs -> Forall (fun b => b < 256) p) -> 4 * total_len V pvs <= U32_MAX - 1 ->
+    bw_build_with_values V k nfb pvs = Ok A -> bw_build_with_values V k nfb pvs' = Ok A' -> A' = A.
+Proof. exact bw_build_perm. Qed.
+Print Assumptions bw_build_is_order_independent.
+
+Theorem cw_build_is_order_independent :
+  forall (V : Type) k nfb (pvs pvs' : list (list N * V)) C C',
+    Permutation pvs pvs' -> k <> LeftmostFirst -> 4 * total_len V pvs <= U32_MAX - 1 ->
+    cw_build_with_values V k nfb pvs = Ok C -> cw_build_with_values V k nfb pvs' = Ok C' -> C' = C.
+Proof. exact cw_build_perm. Qed.
+Print Assumptions cw_build_is_order_independent.
+
+(* identical serialised bytes, for every lawful value serialiser *)
+Theorem permuted_builds_serialise_identically :
+  forall (V : Type) (SV : serializable V) k nfb (pvs pvs' : list (list N * V)),
+    Permutation pvs pvs' -> k <> LeftmostFirst -> 4 * total_len V pvs <= U32_MAX - 1 ->
+    (forall A A', (forall p v, In (p, v) pvs -> Forall (fun b => b < 256) p) ->
+       bw_build_with_values V k nfb pvs = Ok A -> bw_build_with_values V k nfb pvs' = Ok A' ->
+       bw_serialize V SV A' = bw_serialize V SV A)
+    /\ (forall C C', cw_build_with_values V k nfb pvs = Ok C -> cw_build_with_values V k nfb pvs' = Ok C' ->
+       cw_serialize V SV C' = cw_serialize V SV C).
+Proof.
+  intros V SV k nfb pvs pvs' HP Hk Hs. split.
+  - intros A A' Hb HA HA'. rewrite (bw_build_perm V k nfb pvs pvs' A A' HP Hk Hb Hs HA HA'). reflexivity.
+  - intros C C' HC HC'. rewrite (cw_build_perm V k nfb pvs pvs' C C' HP Hk Hs HC HC'). reflexivity.
+Qed.
+Print Assumptions permuted_builds_serialise_identically.
+
+(* the specifications themselves are order independent for duplicate-free collections *)
+Theorem specifications_are_order_independent :
+  forall (V : Type) (pvs pvs' : list (list N * V)), Permutation pvs pvs' -> NoDup (map fst pvs) ->
+  forall h, spec_overlapping V pvs h = spec_overlapping V pvs' h /\ spec_find V pvs h = spec_find V pvs' h
+            /\ spec_nosuffix V pvs h = spec_nosuffix V pvs' h /\ spec_lml V pvs h = spec_lml V pvs' h.
+Proof.
+  intros V pvs pvs' HP Hnd h. split; [|split; [|split]].
+  - exact (spec_overlapping_perm V pvs pvs' HP Hnd h).
+  - exact (spec_find_perm V pvs pvs' HP Hnd h).
+  - exact (spec_nosuffix_perm V pvs pvs' HP Hnd h).
+  - exact (spec_lml_perm V pvs pvs' HP Hnd h).
+Qed.
+Print Assumptions specifications_are_order_independent.
+
